@@ -28,7 +28,7 @@ def shards(tier):
 
 
 def required_classes(tier):
-    out = ["interleaved-configurations", "W4:GF(p)", "W4:GF(p^2)", "W4:GF(2^12)", "int-operand", "div-by-zero", "pow:>=750bit", "laws"]
+    out = ["hash-colliding-operands", "interleaved-configurations", "W4:GF(p)", "W4:GF(p^2)", "W4:GF(2^12)", "int-operand", "div-by-zero", "pow:>=750bit", "laws"]
     for impl in ("ref", "opt"):
         for d in (1, 2, 12):
             out.append("real:%s:deg%d" % (impl, d))
@@ -211,6 +211,7 @@ def run(rec):
                 rec.classes["W4:GF(p^2)"] += len(els) ** 2
                 rec.exhaustive_space("%s FQ2 over GF(%d), modulus x^2+%dx+%d: all elements, all ordered pairs" % (impl, p, mc[1], mc[0]), len(els) ** 2)
     interleaved_configurations(rec, rng, quick)
+    hash_colliding_operands(rec, rng, quick)
     # degree-12 extensions of GF(2), GF(3), GF(5), GF(7)
     mrng = random.Random(rec.seed * 7919 + 12)
     for p in (2, 3, 5, 7):
@@ -248,6 +249,51 @@ def run(rec):
                     rec.count_distinct(n)
                     rec.exhaustive_space("opt FQ12 over GF(3), modulus %r: inverse of every non-zero element (inv monitor)" % (mc,), n)
                 exercise(rec, (impl, "GF(%d^12)#%d" % (p, mi), 12), cls, F, rng, quick, heavy=True)
+
+
+def hash_colliding_operands(rec, rng, quick):
+    """Distinct residues / ints with equal hash() (CPython hashes ints modulo 2^61 - 1) used one after the other: a memo table
+    keyed by hash(x) instead of x would hand the second the first one's result.  Inversion, division, int operands, exponents."""
+    import py_ecc.fields as pf
+    from . import curvegen as CG
+    M61 = CG.M61
+    for name in ("bn128_FQ", "bls12_381_FQ", "optimized_bn128_FQ", "optimized_bls12_381_FQ"):
+        cls = getattr(pf, name)
+        p = cls.field_modulus
+        for rep in range(2 if quick else 20):
+            d = rng.randrange(1, p - 8 * M61)
+            k = rng.randrange(1, 8)
+            a = cls(rng.randrange(1, p))
+            rec.case("hash-colliding-operands", None, nontrivial=False)
+            for dd in (d, d + k * M61, d + M61, d):
+                call(lambda: a / cls(dd))
+                call(lambda: a / dd)
+                call(lambda: dd / a)
+                call(lambda: cls(dd) ** 3)
+                call(lambda: a * dd)
+            e0 = rng.getrandbits(100)
+            for e in (e0, e0 + M61, e0 + 3 * M61):
+                call(lambda: a ** e)
+    for name in ("bn128_FQ2", "optimized_bls12_381_FQ2", "optimized_bn128_FQ12", "bls12_381_FQ12"):
+        cls = getattr(pf, name)
+        p = cls.field_modulus
+        deg = cls.degree
+        base = [rng.randrange(1, p - 8 * M61) for _ in range(deg)]
+        for j in range(2 if quick else 6):
+            v1 = list(base)
+            v2 = list(base)
+            v2[j % deg] += M61 * (1 + j)
+            rec.case("hash-colliding-operands", None, nontrivial=False)
+            x1, x2 = cls(v1), cls(v2)
+            call(x1.inv)
+            call(x2.inv)
+            call(lambda: x1 * x1)
+            call(lambda: x2 * x2)
+            call(lambda: x1 / x2)
+            call(lambda: x2 / x1)
+            d = rng.randrange(1, p - 8 * M61)
+            call(lambda: x1 / d)
+            call(lambda: x1 / (d + M61))
 
 
 def interleaved_configurations(rec, rng, quick):
